@@ -397,8 +397,8 @@ var corpus = []struct {
 	// a pooled transaction that lost its validity by the tip block and is carried by the next block
 	{13, "add-stale-pooled+resigned"}, // FeePerByte raised a little: the mempool's fee-per-byte test keeps it (known)
 	{14, "add-stale-pooled+resigned"}, // FeePerByte raised a lot: must have been evicted (seeded loadPolicy mutation)
-	{15, "add-stale-pooled+resigned"}, // attribute fee raised (known)
-	{16, "add-stale-pooled+resigned"}, // sender blocked by Policy.blockAccount (known)
+	{15, "add-stale-pooled+resigned"}, // attribute fee raised (fixed: 397b691)
+	{16, "add-stale-pooled+resigned"}, // sender blocked by Policy.blockAccount (fixed: 397b691)
 }
 
 // safeBuild turns a refusal of the valid chain itself (prefix, valid next block, valid headers, a
